@@ -100,7 +100,7 @@ def sValidate (cfg : StructCfg) (structName : Bytes) (value : GoVal) (gather : B
   | .int bits z => pure (sNonStruct structName (.int bits z) gather)
   | .uint bits n => pure (sNonStruct structName (.uint bits n) gather)
   | .float bits f r1 r2 => pure (sNonStruct structName (.float bits f r1 r2) gather)
-  | .iface d => pure (sNonStruct structName (.iface d) gather)
+  | .iface t d => pure (sNonStruct structName (.iface t d) gather)
   | .slice t e n es => pure (sNonStruct structName (.slice t e n es) gather)
   | .array t e es => pure (sNonStruct structName (.array t e es) gather)
   | .map t k n es => pure (sNonStruct structName (.map t k n es) gather)
@@ -140,7 +140,7 @@ def sExistTop (cfg : StructCfg) (sn fname : Bytes) (v : GoVal) (isValidTvKind sk
   | .int bits z => pure (if z == 0 then [] else sExistScalar sn fname cusMsg (.int bits z) isValidTvKind)
   | .uint bits n => pure (if n == 0 then [] else sExistScalar sn fname cusMsg (.uint bits n) isValidTvKind)
   | .float bits f r1 r2 => pure (if f.isZero then [] else sExistScalar sn fname cusMsg (.float bits f r1 r2) isValidTvKind)
-  | .iface d => pure (if d.isNone then [] else sExistScalar sn fname cusMsg (.iface d) isValidTvKind)
+  | .iface t d => pure (if d.isNone then [] else sExistScalar sn fname cusMsg (.iface t d) isValidTvKind)
   | .other k t n z => pure (if z then [] else sExistScalar sn fname cusMsg (.other k t n z) isValidTvKind)
 
 /-- the same below a non-nil pointer (no zero test any more) -/
@@ -161,7 +161,7 @@ def sExistStripped (cfg : StructCfg) (sn fname : Bytes) (v : GoVal) (isValidTvKi
   | .int bits z => pure (sExistScalar sn fname cusMsg (.int bits z) isValidTvKind)
   | .uint bits n => pure (sExistScalar sn fname cusMsg (.uint bits n) isValidTvKind)
   | .float bits f r1 r2 => pure (sExistScalar sn fname cusMsg (.float bits f r1 r2) isValidTvKind)
-  | .iface d => pure (sExistScalar sn fname cusMsg (.iface d) isValidTvKind)
+  | .iface t d => pure (sExistScalar sn fname cusMsg (.iface t d) isValidTvKind)
   | .other k t n z => pure (sExistScalar sn fname cusMsg (.other k t n z) isValidTvKind)
 
 /-- elements in index order, each named `path[i]` -/
